@@ -8,7 +8,7 @@ from .src import unparse
 
 PURE_EXTERNAL = {'math.ceil', 'math.floor'}
 PURE_BUILTINS = {'sum', 'min', 'max', 'float', 'int', 'str', 'len', 'round', 'range', 'list', 'abs', 'bool', 'tuple', 'sorted', 'any', 'all',
-                 'isinstance', 'type', 'enumerate', 'zip', 'dict', 'set'}
+                 'isinstance', 'type', 'enumerate', 'zip', 'dict', 'set', 'reversed', 'divmod', 'frozenset', 'map', 'filter', 'pow'}
 
 
 def l1_access(tree, rep):
@@ -118,6 +118,25 @@ def l2b_shared_iterators(tree, rep):
                                f'an evaluation that is aborted and retried continues where the first one stopped, so the stored value is computed from a partial view', f'{rel}:{inner.lineno}')
     rep.ob('L2b', 'no-shared-one-shot-iterators', True)
     return n
+
+
+def l2c_generators_consumed_once(tree, rep):
+    """A generator expression bound to a name inside a definition can be walked once; a second sum()/any()/comprehension
+    over the same name on the same path adds nothing, so the operands it was meant to contribute are silently missing
+    from the line.  Decided per path by the abstract interpreter (two consumers on different branches are fine)."""
+    an = get_analysis(tree)
+    n = 0
+    for d in list(an.defs.values()) + list(getattr(an, 'pdfs', [])):
+        bad = []
+        for p in d.paths:
+            for (kind, data, node, rel) in p.events:
+                if kind == 'exhausted':
+                    bad.append((data, f'{rel}:{getattr(node, "lineno", 0)}'))
+        n += 1
+        if bad:
+            rep.ob('L2c', d.key, False, f'{d.key}: {bad[0][0]} - the amounts it should have added are left out of the line', bad[0][1])
+    rep.ob('L2c', 'no-generator-is-consumed-twice', True)
+    rep.floor('definitions checked for twice-consumed generators', n, 2200)
 
 
 def enclosing_scope(node):
